@@ -28,6 +28,8 @@ def vtext(nix):
 OPS = ([("set", k, v) for k in ("a", "z", "m") for v in ("5", '"s"', "{ k = 1; }")]
        + [("del", k) for k in ("a", "z", "m", "b")] + [("get", k) for k in ("a", "m", "zz")]
        + [("del", "enable"), ("ndel", "b", "enable"), ("sdel", "x"),
+          # the CLI edits on the same live document: the mapping must stay coherent with the text through them as well
+          ("rm", "a.b"), ("rm", "m.x"), ("rm", "s.t.u"), ("cset", "a.c", "5"), ("cset", "m.zz", "5"),
           ("nset", "m", "zz", "5"), ("ndel", "m", "x"), ("nset", "a", "k", "5"), ("sset", "v", "5"), ("sdel", "v"), ("sset", "nw", "5"), ("sget", "v")])
 
 
@@ -35,6 +37,8 @@ def docs(tier):
     for d, t in E.documents(tier):
         w, c = d.split("/")
         if w in ("bare", "lambda", "let", "lambda-call", "let2", "rec", "let-twins") and c in ("flat", "nested", "attrpath", "attrpath1", "comments", "attrpath-deep", "inline", "twins", "attrpath-interleaved"):
+            yield d, t
+        elif w in ("bare", "lambda") and c in ("set-and-attrpath", "set-and-attrpath-deep"):
             yield d, t
 
 
@@ -62,6 +66,10 @@ def eval_script(doc_id, text, script):
                 src[op[1]][op[2]] = PYVALS[op[3]]
             elif kind == "ndel":
                 del src[op[1]][op[2]]
+            elif kind == "rm":
+                E.run_op(src, "rm", op[1], None)
+            elif kind == "cset":
+                E.run_op(src, "set", op[1], op[2])
             elif kind in ("sset", "sdel", "sget"):
                 target = _resolve_target_set(src)
                 if kind == "sset":
@@ -98,6 +106,17 @@ def eval_script(doc_id, text, script):
                 if op[2] not in model[op[1]]:
                     raise KeyError(op[2])
                 del model[op[1]][op[2]]
+            elif kind in ("rm", "cset"):
+                names = E.parse_path(op[1])[1]
+                roots = {k_ for k_ in model if E.is_attrpath_root(before_text, k_)}
+                pre = E.attrpath_prefixes(before_text)
+                try:
+                    if kind == "rm":
+                        E.model_rm(model, names, attrpath_roots=roots, prefixes=pre)
+                    else:
+                        E.model_set(model, names, vtext(op[2]), attrpath_roots=roots, prefixes=pre)
+                except E.Refuse as r:
+                    raise KeyError(r.why)
             # the expression's own `scope` mapping is its outermost let layer
             elif kind == "sset":
                 if not layers:
@@ -117,7 +136,7 @@ def eval_script(doc_id, text, script):
         if mexc is not None:
             if exc is None:
                 return f"step{k}:{kind}:no-exception-where-{type(mexc).__name__}-is-due"
-            if isinstance(mexc, KeyError) and not isinstance(exc, KeyError):
+            if isinstance(mexc, KeyError) and not isinstance(exc, KeyError) and not (kind in ("rm", "cset") and isinstance(exc, ValueError)):
                 return f"step{k}:{kind}:raises-{type(exc).__name__}-instead-of-KeyError"
             if src.rebuild() != before_text:
                 return f"step{k}:{kind}:failed-operation-has-side-effects"
@@ -199,6 +218,10 @@ def run(tier, seed):
             key = s[k][1]
             if "disagree" in sym and s[k][0] in ("set", "del", "nset", "ndel") and E.is_attrpath_root(t, key):
                 sig = f"{sym.split(':', 1)[1]}|{s[k][0]} on an attrpath-derived root"
+                k = 0
+            if c.startswith("set-and-attrpath") and "lookup-of-present-key-raises-KeyError-in-nested-set" in sym:
+                # known root cause: `a = { ... }; a.b = ...;` is kept as two bindings named `a`; lookups see the first one only
+                sig = f"lookup-of-present-key-raises-KeyError-in-nested-set|root defined both explicitly and in attrpath form|content={c}"
                 k = 0
             if k > 0:
                 # the same step failing on the unmodified document is the same defect
